@@ -480,6 +480,35 @@ def prims(ctx: Any) -> List[Ob]:
     return obs
 
 
+def decoder_label_domain(ctx: Any, R: str) -> List[Ob]:
+    """Decoder side of the label-type domain (RFC 1035 4.1.4): first byte 1..63 is a label of that many bytes,
+    64..191 is rejected, 192..255 is a pointer made of the low six bits and the next byte."""
+    prog = ctx.prog
+    obs: List[Ob] = []
+    dec = prog.func(INC + '._decode_labels_at_offset')
+    off_p = dec.params[1]
+    len_vars = [st.targets[0].id for st in walk_local_ordered(dec.node) if isinstance(st, ast.Assign) and isinstance(st.targets[0], ast.Name) and isinstance(st.value, ast.Subscript) and norm(st.value.slice) == off_p]
+    consts_set = set()
+    for c in walk_local_ordered(dec.node):
+        if isinstance(c, ast.Compare) and len(c.ops) == 1:
+            try:
+                pp, op_ = lf.comparison(prog, dec.module, c, lambda x: 'L' if isinstance(x, ast.Name) and x.id in len_vars else None)
+            except lf.NotLinear:
+                continue
+            # L - K < 0  <=>  length < K
+            if set(pp) - {()} == {(('L', 1),)} and pp[(('L', 1),)] > 0 and op_ in ('<', '<='):
+                consts_set.add(int(-pp.get((), 0) / pp[(('L', 1),)]) + (1 if op_ == '<=' else 0))  # integers: L <= K is L < K + 1
+    consts = sorted(consts_set)
+    obs.append(ob(R, dec, f'length < {consts}', 'the decoder takes length < 0x40 as a label and length < 0xC0 (otherwise) as an unknown type', consts == [0x40, 0xC0]))
+    link = [st for st in walk_local_ordered(dec.node) if isinstance(st, ast.Assign) and isinstance(st.targets[0], ast.Name) and any(isinstance(x, ast.BinOp) and isinstance(x.op, ast.BitAnd) for x in ast.walk(st.value)) and isinstance(st.value, ast.BinOp)]
+    okl = False
+    if len(link) == 1:
+        v = link[0].value
+        okl = isinstance(v, ast.BinOp) and isinstance(v.op, ast.Add) and isinstance(v.left, ast.BinOp) and isinstance(v.left.op, ast.Mult) and prog.try_fold(dec.module, v.left.right) == (True, 256) and isinstance(v.left.left, ast.BinOp) and isinstance(v.left.left.op, ast.BitAnd) and prog.try_fold(dec.module, v.left.left.right) == (True, 0x3F)
+    obs.append(ob(R, dec, link[0] if link else 'link = ...', 'a pointer is the low 6 bits of the first byte times 256 plus the second byte', okl))
+    return obs
+
+
 @rule('C01.LABEL', 'D', expect_min=5)
 def label(ctx: Any) -> List[Ob]:
     """Label-length domain agreement: the encoder rejects labels above 63 bytes
@@ -513,27 +542,7 @@ def label(ctx: Any) -> List[Ob]:
     ws = [c for c in walk_local_ordered(wu.node) if isinstance(c, ast.Call) and call_name(c) == 'write_string']
     good = len(chk) == 1 and len(enc) == 1 and len(wb) == 1 and len(ws) == 1 and norm(chk[0].value.args[0]) == norm(enc[0].targets[0]) and norm(wb[0].args[0]) == norm(chk[0].targets[0]) and norm(ws[0].args[0]) == norm(enc[0].targets[0])
     obs.append(ob(R, wu, 'length byte then the encoded bytes', 'a label is written as its UTF-8 byte length followed by exactly those bytes', good))
-    dec = prog.func(INC + '._decode_labels_at_offset')
-    off_p = dec.params[1]
-    len_vars = [st.targets[0].id for st in walk_local_ordered(dec.node) if isinstance(st, ast.Assign) and isinstance(st.targets[0], ast.Name) and isinstance(st.value, ast.Subscript) and norm(st.value.slice) == off_p]
-    consts_set = set()
-    for c in walk_local_ordered(dec.node):
-        if isinstance(c, ast.Compare) and len(c.ops) == 1:
-            try:
-                pp, op_ = lf.comparison(prog, dec.module, c, lambda x: 'L' if isinstance(x, ast.Name) and x.id in len_vars else None)
-            except lf.NotLinear:
-                continue
-            # L - K < 0  <=>  length < K
-            if set(pp) - {()} == {(('L', 1),)} and pp[(('L', 1),)] > 0 and op_ == '<':
-                consts_set.add(int(-pp.get((), 0) / pp[(('L', 1),)]))
-    consts = sorted(consts_set)
-    obs.append(ob(R, dec, f'length < {consts}', 'the decoder takes length < 0x40 as a label and length < 0xC0 (otherwise) as an unknown type', consts == [0x40, 0xC0]))
-    link = [st for st in walk_local_ordered(dec.node) if isinstance(st, ast.Assign) and isinstance(st.targets[0], ast.Name) and any(isinstance(x, ast.BinOp) and isinstance(x.op, ast.BitAnd) for x in ast.walk(st.value)) and isinstance(st.value, ast.BinOp)]
-    okl = False
-    if len(link) == 1:
-        v = link[0].value
-        okl = isinstance(v, ast.BinOp) and isinstance(v.op, ast.Add) and isinstance(v.left, ast.BinOp) and isinstance(v.left.op, ast.Mult) and prog.try_fold(dec.module, v.left.right) == (True, 256) and isinstance(v.left.left, ast.BinOp) and isinstance(v.left.left.op, ast.BitAnd) and prog.try_fold(dec.module, v.left.left.right) == (True, 0x3F)
-    obs.append(ob(R, dec, link[0] if link else 'link = ...', 'a pointer is the low 6 bits of the first byte times 256 plus the second byte', okl))
+    obs.extend(decoder_label_domain(ctx, R))
     wl = out.methods['_write_link_to_name']
     bytes_w = [c.args[0] for c in walk_local_ordered(wl.node) if isinstance(c, ast.Call) and call_name(c) == '_write_byte']
     okw = len(bytes_w) == 2 and isinstance(bytes_w[0], ast.BinOp) and isinstance(bytes_w[0].op, ast.BitOr) and prog.try_fold(wl.module, bytes_w[0].right) == (True, 0xC0) and isinstance(bytes_w[0].left, ast.BinOp) and isinstance(bytes_w[0].left.op, ast.RShift) and prog.try_fold(wl.module, bytes_w[0].left.right) == (True, 8) and isinstance(bytes_w[1], ast.BinOp) and isinstance(bytes_w[1].op, ast.BitAnd) and prog.try_fold(wl.module, bytes_w[1].right) == (True, 0xFF)
@@ -703,13 +712,47 @@ def nsecbits(ctx: Any) -> List[Ob]:
     return obs
 
 
+def log_only_state(prog: Any, f: FuncInfo, gname: str) -> bool:
+    """A module-level container that only de-duplicates log lines: every function of the program that mentions it
+    calls nothing but logging functions (so it cannot influence a result).  Side condition re-checked on every run."""
+    users = [g for g in prog.functions.values() if any(isinstance(n, ast.Name) and n.id == gname for n in ast.walk(g.node)) and (g.module is f.module or gname in g.module.imports)]
+    if not users:
+        return False
+    for g in users:
+        for c in walk_local_ordered(g.node):
+            if isinstance(c, ast.Call) and not (norm(c.func).startswith(('log.', 'logging.')) or norm(c.func) in ('str', 'repr', 'len', 'sys.exc_info')):
+                return False
+        if any(isinstance(n, ast.Return) and n.value is not None for n in walk_local_ordered(g.node)):
+            return False
+    return True
+
+
+@rule('C01.STATELESS', 'N', expect_min=15)
+def stateless(ctx: Any) -> List[Ob]:
+    """What is emitted for an entry depends on the entry and the message only: no function on the encode path
+    (everything reachable from the message builder's public methods, including every record's writer) mutates
+    a mutable module-level container, directly or through a local alias, or rebinds a module global.  Shared
+    scratch state makes the bytes depend on what was encoded -- or rejected -- before."""
+    from .common import shared_state_mutations
+
+    R = 'C01.STATELESS'
+    prog = ctx.prog
+    out = prog.cls(OUT)
+    roots = [f for n, f in out.methods.items() if not n.startswith('__') or n == '__init__']
+    obs: List[Ob] = []
+    for f in sorted(ctx.cg.closure(roots, include_deferred=False), key=lambda g: g.full):
+        muts = [m for m in shared_state_mutations(prog, f) if not log_only_state(prog, f, m[1])]
+        obs.append(ob(R, f, muts[0][0] if muts else f.name, 'encode path keeps no state between messages (no module-level container mutated)', not muts, '; '.join(f'line {n.lineno}: {g} {how}' for n, g, how in muts[:3])))
+    return obs
+
+
 EXPLANATION = (
     'C01.LAYOUT (necessary condition): a wire-grammar extractor turns every record writer, every decoder arm (mapped through the '
     'constructor signature) and the header/question/RR framing into sequences of wire tokens bound to fields and compares all three '
     'with a frozen RFC 1035/2782/3596/4034 table. C01.PRIMS (decided): read/write primitives consume/produce exactly the bytes they return (offset arithmetic as linear forms); section loops run header-count times. C01.LABEL (decided): label-length and pointer-tag domain agreement between encoder '
     'and decoder as folded constants. C01.ROLLBACK (necessary): fields mutated per entry are discovered from the call closure and must '
     'be restored on rollback and reset per packet. C01.FLUSHBIT (decided): decision table of the class-bit writer. C01.NSECBITS '
-    '(necessary): bit numbering of the NSEC bitmap on both sides. Not decided: round-trip equality of values, compression-offset '
+    '(necessary): bit numbering of the NSEC bitmap on both sides. C01.STATELESS (necessary): nothing reachable from the builder mutates module-level containers (also through local aliases). Not decided: round-trip equality of values, compression-offset '
     'arithmetic and packet split positions [X].'
 )
-RULES = [layout, prims, label, rollback, flushbit, nsecbits]
+RULES = [layout, prims, label, rollback, flushbit, nsecbits, stateless]
